@@ -114,7 +114,7 @@ def gen_hierarchy(src):
         k["type"] = "str"
         k.pop("init", None)
         if k["default"]:
-            k["default"] = [k["default"][0] if k["default"][0] != "attr_factory" else "attr_default", src.pick(VALS["str"])]
+            k["default"] = [k["default"][0], src.pick(VALS["str"])]  # (incl. a default that comes from a factory: the key is optional then, too)
         root["key"] = k["name"]
         root["prepare"].pop(k["name"], None)
     if shape == "two_parents" and root.get("key") and src.chance(2, 3) and classes[1]["attrs"] and not classes[1].get("user_init"):
